@@ -171,10 +171,78 @@ func genC10Links(t *rapid.T, o gen.Opts) CacheCase {
 	return c
 }
 
+// genC10Flips: any world; the write is chosen, with the reference evaluator, among the deletions of
+// stored tuples and the direct grants on the requested object (any relation: an operand of an
+// intersection or exclusion counts) that flip the request's answer; the request is asked as Check
+// and as ListObjects before the write (populating the caches) and with HIGHER_CONSISTENCY after it.
+func genC10Flips(t *rapid.T, o gen.Opts) CacheCase {
+	w := gen.AnyWorld(t, o)
+	c := CacheCase{World: w, Cfg: genCacheCfg(t, false, false)}
+	c.Cfg.Query = true
+	cur := gen.World{Model: w.Model, Tuples: append([]m.Tuple{}, w.Tuples...), Left: w.Left}
+	type cand struct {
+		tu  m.Tuple
+		del bool
+	}
+	for round, n := 0, rapid.IntRange(1, 3).Draw(t, "nRounds"); round < n; round++ {
+		r := gen.RequestFor(t, cur, o)
+		r.Contextual = nil
+		if m.UserKind(r.User) != "object" {
+			continue
+		}
+		before, unk := semkit.RefCheck(cur, r)
+		if unk {
+			continue
+		}
+		var cands []cand
+		for _, tu := range cur.Tuples {
+			cands = append(cands, cand{tu, true})
+		}
+		ot, _ := m.SplitObject(r.Object)
+		if td := w.Model.Type(ot); td != nil {
+			for _, rel := range td.Relations {
+				g := m.Tuple{Object: r.Object, Relation: rel.Name, User: r.User}
+				present := false
+				for _, x := range cur.Tuples {
+					present = present || x.Key() == g.Key()
+				}
+				if !present && refsem.ValidForRead(w.Model, g) == refsem.OK && !inLeft(w.Left, g) {
+					cands = append(cands, cand{g, false})
+				}
+			}
+		}
+		var flips []cand
+		for _, cd := range cands {
+			next := gen.World{Model: cur.Model, Tuples: append([]m.Tuple{}, cur.Tuples...), Left: cur.Left}
+			applyWrite(&next, map[bool]string{true: "delete", false: "write"}[cd.del], []m.Tuple{cd.tu})
+			if after, u2 := semkit.RefCheck(next, r); !u2 && after != before {
+				flips = append(flips, cd)
+			}
+		}
+		if len(flips) == 0 {
+			continue
+		}
+		ch := flips[rapid.IntRange(0, len(flips)-1).Draw(t, "flip")]
+		lo := loFromRequest(ot, r)
+		c.Ops = append(c.Ops, QOp{Kind: "check", Req: r}, QOp{Kind: "list", LO: lo})
+		kind := map[bool]string{true: "delete", false: "write"}[ch.del]
+		c.Ops = append(c.Ops, QOp{Kind: kind, Tuples: []m.Tuple{ch.tu}})
+		applyWrite(&cur, kind, []m.Tuple{ch.tu})
+		// the listing first: a HIGHER_CONSISTENCY Check of the same request would refresh the cached answer
+		c.Ops = append(c.Ops, QOp{Kind: "list", LO: lo, HC: true}, QOp{Kind: "batch", Req: r, HC: true}, QOp{Kind: "check", Req: r, HC: true})
+	}
+	return c
+}
+
 func genC10(t *rapid.T) CacheCase {
 	o := worldOpts()
-	if rapid.IntRange(0, 3).Draw(t, "linkScenario") == 0 {
+	switch rapid.IntRange(0, 3).Draw(t, "linkScenario") {
+	case 0:
 		if c := genC10Links(t, o); len(c.Ops) > 0 {
+			return c
+		}
+	case 1:
+		if c := genC10Flips(t, o); len(c.Ops) > 0 {
 			return c
 		}
 	}
